@@ -222,6 +222,18 @@ var messageCheck = &core.Check{Name: "c16/message", Quick: 3000, Thorough: 25000
 			if dp.Hash(true) == norm {
 				return fmt.Errorf("normalised hash %x unchanged although the destination address differs", norm)
 			}
+			// the normalised hash is a function of destination and body as they are now: a decoded message whose
+			// destination is replaced afterwards hashes like a message with that destination
+			if plain.Info.ExtInMsgInfo != nil && dp.Info.ExtInMsgInfo != nil {
+				edited := plain
+				info := *plain.Info.ExtInMsgInfo
+				info.Dest = dp.Info.ExtInMsgInfo.Dest
+				edited.Info.ExtInMsgInfo = &info
+				if h := edited.Hash(true); h != dp.Hash(true) {
+					return fmt.Errorf("a decoded message whose destination was replaced after Hash(true) had been asked reports normalised hash %x; a message with that destination and the same body has %x (before the edit: %x)", h, dp.Hash(true), norm)
+				}
+				c.Class("destination edited after the normalised hash was asked")
+			}
 		}
 	}
 	b2 := m
@@ -297,6 +309,23 @@ func reuseVariable(c *core.Ctx, m tlbref.Message, cell *ref.RCell, fresh *tlb.Me
 		if err != nil {
 			return err
 		}
+		// one cell object decoded twice (the first decode leaves its read position somewhere inside), and a
+		// cell a caller has peeked into
+		for round := 0; round < 3; round++ {
+			var mr tlb.Message
+			if round == 2 {
+				ca.ResetCounters()
+				ca.ReadUint(ca.BitsAvailableForRead() / 2)
+			}
+			if err := tlb.Unmarshal(ca, &mr); err != nil {
+				return fmt.Errorf("decode %d of one and the same message cell object failed: %v", round+1, err)
+			}
+			if mr.Hash(false) != fresh.Hash(false) || mr.Hash(true) != fresh.Hash(true) {
+				return fmt.Errorf("decode %d of one and the same message cell object reports hashes %x / %x (normalised), the first decode reported %x / %x",
+					round+1, mr.Hash(false), mr.Hash(true), fresh.Hash(false), fresh.Hash(true))
+			}
+		}
+		ca.ResetCounters()
 		var src boc.Cell
 		var m1, m2 tlb.Message
 		src = *ca
